@@ -39,7 +39,7 @@ func opsMain(args []string) {
 	fs.Parse(args)
 	thread := &starlark.Thread{Name: "ops"}
 	for h := 0; h < *n; h++ {
-		r := hx.NewRand(*seed*31337 + uint64(h))
+		r := hx.NewRand(*seed*31337 + uint64(h)).Split()
 		d := starlark.NewDict(0)
 		nk := 3 + r.Intn(30)
 		keys := make([]string, nk)
